@@ -368,7 +368,7 @@ pub fn run(ctx: &Ctx, rep: &mut Report) {
     rep.prop(
         "random-messages",
         "proptest: type-31 messages with arbitrary field values (floats as arbitrary bit patterns incl. NaN/inf), random block subset, independent pointer and physical orders, 0..16-byte gaps, gates 0..1840 (some to 65535), word size 8/16, decoded directly, at a stream offset, and through decode_messages; non-trivial = >= 1 moment and (permuted or gapped)",
-        ctx.tier.pick(80_000, 20_000_000),
+        ctx.tier.pick(600_000, 20_000_000),
         move || {
             (gen::drd(opts, gen::elevation_any(), None), gen::msg_header(31, None), proptest::collection::vec(any::<u8>(), 0..=40))
                 .prop_map(|(drd, header, lead)| Case { drd, header, lead })
